@@ -34,7 +34,7 @@ MINIMUMS = {"quick": {"dispatch_verdicts": 50000, "filter_verdicts": 1000, "base
             "thorough": {"dispatch_verdicts": 150000}}
 WALL_CAP = {"quick": 150, "thorough": 2400}
 
-SRCS = ["/a/x.py", "/a/X.PY", "/a/b/y.txt", "/a", "x.py", b"/a/x.py", "/A/b/x.py"]
+SRCS = ["/a/x.py", "/a/X.PY", "/a/b/y.txt", "/a", "x.py", b"/a/x.py", "/A/b/x.py", "/a/conf.py/", "/a/b/y.txt/."]  # the last two: paths not in normal form
 DESTS = ["", "/a/z.py", "/a/b/Z.TXT", b"/q/w.md", "/a"]
 PATS = [None, [], ["*"], ["*.py"], ["*.PY"], ["/a/*"], ["**"], ["*.txt"], ["*.py", "*.txt"], ["/a/b/*", "*.md"], ["x.py"], ["*/b/*"]]
 REGS = [None, [], [r".*"], [r".*\.py$"], [r".*\.PY$"], [r"/a/[^/]*$"], [r""], [r".*\.txt$"], [r".*\.py$", r".*\.md$"], [r"^$"], r".*\.py$", [r"/a/b/"],
